@@ -587,12 +587,13 @@ func (lm *levelManager) discardStaleEntries(entries []types.Entry) []types.Entry
 }
 
 func (lm *levelManager) overlapL0() []*list.Element {
-	frontIndex := lm.levels[0].Front().Value.(tableHandle).dataBlockIndex
-
-	startKey := frontIndex.Entries[0].StartKey
-	endKey := frontIndex.Entries[len(frontIndex.Entries)-1].EndKey
-
-	return lm.overlapLN(0, startKey, endKey)
+	// L0 tables are ordered by age only and may all overlap: a table left behind in L0 while a newer one
+	// moves down to L1 would answer lookups with its older versions, so all of them are compacted together
+	var all []*list.Element
+	for e := lm.levels[0].Front(); e != nil; e = e.Next() {
+		all = append(all, e)
+	}
+	return all
 }
 
 func (lm *levelManager) overlapLN(level int, start, end string) []*list.Element {
